@@ -345,10 +345,31 @@ func ruleNewestWins(c *Ctx) {
 					iter = forwardHas(f, ci, in, nil)
 				}
 			})
+			if !iter && flowsToReturn(f, sorted) {
+				// a helper that returns the sorted copy: every caller searches what it got back
+				callers := c.P.CallersOf(f)
+				iter = len(callers) > 0
+				for _, s := range callers {
+					sv, ok := s.(ssa.Value)
+					if !ok {
+						iter = false
+						continue
+					}
+					found := false
+					instrs(s.Parent(), func(in ssa.Instruction) {
+						if ia, ok := in.(*ssa.IndexAddr); ok && (ia.X == sv || sameValue(ia.X, sv)) {
+							found = true
+						}
+					})
+					if !found {
+						iter = false
+					}
+				}
+			}
 			c.check(iter, fnName(f), fmt.Sprintf("the sorted slice is the one searched (SortFID #%d)", n), c.P.ipos(ci), "", "the slice that is sorted is not the slice that is searched afterwards")
 		})
 	}
-	c.minInstances("SortFID call sites in the read cone", n, 4)
+	c.minInstances("SortFID call sites in the read cone", n, 1)
 	// (b) the merge keeps the first occurrence of a key
 	k := 0
 	for _, f := range cone {
@@ -417,7 +438,7 @@ func ruleNewestWins(c *Ctx) {
 		}
 		c.check(okb, fnName(f), "memory results precede disk results in the merged list", c.P.ipos(diskApp[0]), "", "entries of sealed segments can be placed before entries of the active segment: the first-occurrence merge would prefer the older value")
 	}
-	c.minInstances("functions merging memory and disk results", m, 3)
+	c.minInstances("functions merging memory and disk results", m, 2)
 }
 
 // ruleCommittedRead: reads return only data of committed transactions.
